@@ -128,8 +128,9 @@ func hSkiplistInsertsK(nThreads int, prePopulate bool, fixed []byte) {
 }
 
 func VerifHarness_C30_Conc_TwoInserters() {
-	if !sym.Thorough() {
-		sym.MaxPreempt(1)
+	sym.MaxPreempt(1)
+	if sym.Thorough() {
+		sym.MaxPreempt(2) // 3 did not finish within 45 minutes
 	}
 	hSkiplistInserts(2, true)
 }
